@@ -26,6 +26,8 @@ import Props.Lemmas.C13_Inv
 import Props.Lemmas.C13_Spec
 import Props.Lemmas.C13_SysPath
 import Props.Lemmas.C13_Stack
+import Props.Lemmas.C13_Seq
+import Generated.CacheAdmin
 import Props.Lemmas.C13_Progress
 import Props.Lemmas.C13_SpecU
 import Props.Lemmas.C13_Scan
@@ -518,6 +520,120 @@ example : (session exW1 LState.init Flags.none
 theorem retaining_client_breaks_clear :
     let st := (execAll exW1 LState.init [.run 7 0 exRq, .world exW2, .clearAll]).2
     (Stack.run exW2 st 7 0 exRq).1.ran = some 2 ∧ (runRetaining exW2 st 7 0 exRq).1.ran = some 1 := by
+  decide +kernel
+
+/-! #### `clear_all` and `clear_pipes` as sequences of single clears, other threads in every gap
+
+`pypyr.cache.admin.clear_all()` is not one step: it is `<cache>.clear()` after `<cache>.clear()`, each under
+that cache's own lock, and between two of them another thread can complete any number of look-ups
+(`Stack.weave`). What the caller of `clear_all` is promised — "a clear makes the next look-up create afresh" —
+therefore depends on the ORDER of the clears: the file loader's pipeline cache (outer, reached through
+`loader_cache`) is filled FROM `file_cache` (inner). Hypothesis of the theorems, stated: every look-up is a
+completed one (a `run` in a gap, before or after); a look-up that STARTED before a clear and is still inside
+its creator when `clear_all` returns is outside them. -/
+
+theorem stepAll_eq_steps (f : Flags) (ops : List LOp) : stepAll f ops = Seq.steps f ops := by
+  induction ops generalizing f with
+  | nil => rfl
+  | cons op ops ih => exact ih _
+
+/-- the clears of `clear_all` that lie on a pipeline look-up's path, in the order pypyr/cache/admin.py has
+    them (`Generated/CacheAdmin.lean`, written from the source under test by ast on every run) -/
+def clearAllSeq : List LOp := Pypyr.Generated.CacheAdmin.clearAllOrder.filterMap clearOpOf
+
+/-- the STATIC TIE: `clear_all` as it is in the tree under test is a straight line of `.clear()` calls on
+    module-level cache instances, it clears `file_cache`, `loader_cache` and `step_cache`, and it clears
+    the inner `file_cache` before the outer `loader_cache`. -/
+theorem clear_all_order_inner_first :
+    Pypyr.Generated.CacheAdmin.clearAllStraight = true ∧ innerFirst clearAllSeq = true ∧
+    "step_cache" ∈ Pypyr.Generated.CacheAdmin.clearAllOrder ∧ clearAllSeq.all (fun op => !op.isWorld) = true := by
+  decide
+
+theorem clearAllSeq_quiet : Seq.Quiet clearAllSeq := by
+  intro op hop
+  have h := clear_all_order_inner_first.2.2.2
+  rw [List.all_eq_true] at h
+  simpa using h op hop
+
+/-- `clear_seq_refreshes` — for EVERY session before, every list of single clears `cl` that empties the inner
+    layer before the outer one, every choice of operations other threads complete in every gap (runs on any
+    client, any loader, any request; further clears; `no_cache` toggles — anything but an edit of the
+    sources) and after the last clear: the next look-up, by any client object, executes the source as it is
+    now. -/
+theorem clear_seq_refreshes (w0 : World) (pre cl post : List LOp) (gap : Nat → List LOp)
+    (hin : innerFirst cl = true) (hq : Seq.Quiet cl) (hg : ∀ i, Seq.Quiet (gap i)) (hpost : Seq.Quiet post)
+    (hw : WorldsOk w0 (pre ++ (weave gap 0 cl ++ post))) (c l : Nat) (r : Rq) :
+    (run (execAll w0 LState.init (pre ++ (weave gap 0 cl ++ post))).1
+         (execAll w0 LState.init (pre ++ (weave gap 0 cl ++ post))).2 c l r).1.ran =
+      (execAll w0 LState.init (pre ++ (weave gap 0 cl ++ post))).1.fresh l r := by
+  have hi := inv_execAll _ w0 LState.init Flags.none (inv_init w0 _) hw
+  rw [stepAll_eq_steps, Seq.steps_append, Seq.steps_append] at hi
+  have h1 := Seq.weave_inner_first gap hg cl 0 (Seq.steps Flags.none pre) hq hin
+  have h2 := Seq.steps_clean post _ hpost h1.1 h1.2
+  exact run_fresh_of_inv _ _ _ c l r hi (Or.inl (by simp [Flags.clean, h2.1, h2.2 l]))
+
+/-- `clear_all_refreshes_interleaved` — the same for `clear_all` in the order the code under test has. -/
+theorem clear_all_refreshes_interleaved (w0 : World) (pre post : List LOp) (gap : Nat → List LOp)
+    (hg : ∀ i, Seq.Quiet (gap i)) (hpost : Seq.Quiet post)
+    (hw : WorldsOk w0 (pre ++ (weave gap 0 clearAllSeq ++ post))) (c l : Nat) (r : Rq) :
+    (run (execAll w0 LState.init (pre ++ (weave gap 0 clearAllSeq ++ post))).1
+         (execAll w0 LState.init (pre ++ (weave gap 0 clearAllSeq ++ post))).2 c l r).1.ran =
+      (execAll w0 LState.init (pre ++ (weave gap 0 clearAllSeq ++ post))).1.fresh l r :=
+  clear_seq_refreshes w0 pre clearAllSeq post gap clear_all_order_inner_first.2.1 clearAllSeq_quiet hg hpost hw c l r
+
+/-- `clear_pipes_seq_refreshes` — `LoaderCache.clear_pipes()` is a loop of `Loader.clear()` calls; the
+    per-loader pipeline caches do not feed one another, so ANY order of the loaders `ls` will do: with
+    `file_cache` emptied since the last edit, after the loop — whatever other threads completed in the gaps —
+    a look-up through any of the cleared loaders executes the present source. -/
+theorem clear_pipes_seq_refreshes (w0 : World) (pre mid post : List LOp) (ls : List Nat) (gap : Nat → List LOp)
+    (hmid : Seq.Quiet mid) (hg : ∀ i, Seq.Quiet (gap i)) (hpost : Seq.Quiet post)
+    (hw : WorldsOk w0 (pre ++ (LOp.clearFiles :: mid ++ (weave gap 0 (ls.map fun x => LOp.clearPipes (some x)) ++ post))))
+    (c l : Nat) (r : Rq) (hl : l ∈ ls) :
+    let ops := pre ++ (LOp.clearFiles :: mid ++ (weave gap 0 (ls.map fun x => LOp.clearPipes (some x)) ++ post))
+    (run (execAll w0 LState.init ops).1 (execAll w0 LState.init ops).2 c l r).1.ran =
+      (execAll w0 LState.init ops).1.fresh l r := by
+  intro ops
+  have hi := inv_execAll _ w0 LState.init Flags.none (inv_init w0 _) hw
+  rw [stepAll_eq_steps, Seq.steps_append, List.cons_append, Seq.steps, Seq.steps_append, Seq.steps_append] at hi
+  have hf0 : ((Seq.steps Flags.none pre).step .clearFiles).files = false := by simp [Flags.step]
+  have hf1 := Seq.steps_files mid _ hmid hf0
+  have hqw := Seq.quiet_weave gap hg _ 0 (Seq.quiet_clearPipes ls)
+  have hf2 := Seq.steps_files _ _ hqw hf1
+  have hp2 := Seq.weave_pipes gap hg l ls 0 _ hf1 (Or.inl hl)
+  have hf3 := Seq.steps_files post _ hpost hf2
+  have hp3 := Seq.steps_pipe l post _ hpost hf2 hp2
+  exact run_fresh_of_inv _ _ _ c l r hi (Or.inl (by simp [Flags.clean, hf3, hp3]))
+
+/-- the gap used by the witnesses: another thread (client 8) completes one look-up of the same pipeline
+    between the first and the second clear -/
+def exGap : Nat → List LOp := fun i => if i = 1 then [.run 8 0 exRq] else []
+
+/-- `outer_layer_first_keeps_stale` — the COUNTER-MODEL: the same two clears the other way round
+    (`loader_cache.clear()` BEFORE `file_cache.clear()`). The look-up in the gap makes a new Loader whose
+    creator is served the pre-clear parse by the not yet emptied `file_cache`; after the sequence has
+    returned, look-ups execute version 1 although the source holds version 2 — for ever, nothing else
+    clears it. With the inner layer first the very same interleaving ends fresh. `innerFirst` is exactly what
+    tells the two apart. -/
+theorem outer_layer_first_keeps_stale :
+    let pre : List LOp := [.run 7 0 exRq, .world exW2]
+    let bad := execAll exW1 LState.init (pre ++ weave exGap 0 [.clearLoaders, .clearFiles, .clearSteps])
+    let good := execAll exW1 LState.init (pre ++ weave exGap 0 [.clearFiles, .clearLoaders, .clearSteps])
+    (Stack.run bad.1 bad.2 7 0 exRq).1.ran = some 1 ∧ bad.1.fresh 0 exRq = some 2 ∧
+    (Stack.run good.1 good.2 7 0 exRq).1.ran = some 2 ∧
+    innerFirst [.clearLoaders, .clearFiles, .clearSteps] = false ∧
+    innerFirst [.clearFiles, .clearLoaders, .clearSteps] = true ∧
+    -- without a look-up in the gap both orders end fresh: single-threaded the two are indistinguishable
+    (let b0 := execAll exW1 LState.init (pre ++ weave (fun _ => []) 0 [.clearLoaders, .clearFiles, .clearSteps])
+     (Stack.run b0.1 b0.2 7 0 exRq).1.ran = some 2) := by
+  decide +kernel
+
+/-- the hypotheses of `clear_all_refreshes_interleaved` are satisfiable: the session of the witness, with the
+    code's own order — the look-up in the gap is still served version 1 by the not yet dropped Loader (it is
+    concurrent with the clear), the one after `clear_all` executes version 2 -/
+example : (session exW1 LState.init Flags.none
+      ([.run 7 0 exRq, .world exW2] ++ (weave exGap 0 clearAllSeq ++ [.run 7 0 exRq]))).map
+        (fun x => (x.1.ran, x.2.1, x.2.2)) =
+    [(some 1, true, some 1), (some 1, false, some 2), (some 2, true, some 2)] := by
   decide +kernel
 
 /-! #### failed look-ups: what they leave behind
